@@ -168,7 +168,7 @@ def run_real(case):
 
 # ------------------------------------------------------------------------------------------- readers
 
-READERS = ['bytes_kw', 'bytearray_kw', 'bytesio', 'filename', 'filehandle', 'pathlib', 'array_fromfile', 'array_bytes']
+READERS = ['bytes_kw', 'bytearray_kw', 'memoryview_kw', 'memoryview_wide_kw', 'memoryview_auto', 'array_wide_auto', 'bytesio', 'filename', 'filehandle', 'pathlib', 'array_fromfile', 'array_bytes']
 
 
 @st.composite
@@ -203,6 +203,21 @@ def run_read(case):
             x = c(bytes=b, **kw)
         elif reader == 'bytearray_kw':
             x = c(bytes=bytearray(b), **kw)
+        elif reader in ('memoryview_kw', 'memoryview_wide_kw', 'memoryview_auto', 'array_wide_auto'):
+            # buffer objects other than bytes: their bytes in memory order are the data, whatever the item width or shape of the view
+            import array as _array
+            pad = b + b'\xff' * (-len(b) % 4) if reader != 'memoryview_kw' else b
+            views = [lambda: memoryview(_array.array('H', pad)), lambda: memoryview(pad).cast('I'), lambda: memoryview(pad).cast('B', (2, len(pad) // 2)),
+                     lambda: memoryview(bytearray(pad)).toreadonly(), lambda: memoryview(pad)[::1]]
+            mv = memoryview(b) if reader == 'memoryview_kw' else views[(case['item'] + total) % len(views)]()
+            if reader == 'array_wide_auto':
+                mv = _array.array('H', pad)
+            if len(pad) != len(b) and ln is None:
+                kw['length'] = ln = total - o      # the padding added for the item width is not part of the source
+            if reader in ('memoryview_auto', 'array_wide_auto') and not kw:
+                x = c(mv)           # the auto initialiser takes whole buffers only (no offset / length)
+            else:
+                x = c(bytes=mv, **kw)
         elif reader == 'bytesio':
             x = c(io.BytesIO(b), **kw) if kw else c(io.BytesIO(b))
         elif reader in ('filename', 'pathlib'):
